@@ -215,6 +215,10 @@ def run_property(P, tier, seed, replay=None):
                 if (cid, reason) in again or (P.get("nondeterministic") and reason in ("result_crashes_consumer", "call_did_not_return")):
                     # (for a schedule-dependent family the recorded crash / hang IS the observation: it is not in the judge's output)
                     confirmed.append((cid, i, reason))
+                elif reason == "call_did_not_return":
+                    # the call exceeded the time budget once and returned in time when the case was run alone:
+                    # a loaded machine, not an outcome (counted in the evidence)
+                    ctx["transient_timeouts"] = ctx.get("transient_timeouts", 0) + 1
                 else:
                     raise Infra("reject of case %d (%s) did not reproduce on re-execution" % (cid, reason))
         # extra legs (concurrency runs, Apalache lemmas, sweeps) supply their own verdicts
@@ -277,7 +281,7 @@ def run_property(P, tier, seed, replay=None):
                    evaluations=len(cases), distinct_nontrivial=len(nontriv), rule=P.get("rule", ""),
                    samples=samples, exhaustive=bool(P.get("exhaustive", False)),
                    trace_events=jr.get("events", 0), classes=classes, tlc_runs=ctx["tlc_runs"],
-                   cases_from_tlc=ctx.get("n_tlc_cases", 0), cases_random=ctx.get("n_rand_cases", 0), cases_from_repository_tests=ctx.get("n_corpus_cases", 0), cases_not_run_accessor_unavailable=ctx.get("unavailable_cases", 0), cases_left_out_no_oracle=ctx.get("unjudgeable_cases", 0),
+                   cases_from_tlc=ctx.get("n_tlc_cases", 0), cases_random=ctx.get("n_rand_cases", 0), cases_from_repository_tests=ctx.get("n_corpus_cases", 0), cases_not_run_accessor_unavailable=ctx.get("unavailable_cases", 0), cases_left_out_no_oracle=ctx.get("unjudgeable_cases", 0), transient_timeouts=ctx.get("transient_timeouts", 0),
                    rejected_cases=len({c for c, _, _ in confirmed}),
                    known_findings={s: n for s, (k, n) in findings.items()},
                    checker_cmd="tlc (tla2tools 1.8.0) " + "; ".join(r["cmd"] for r in ctx["tlc_runs"][:3]))
